@@ -159,7 +159,11 @@ fn run_all(ctx: &mut Ctx) {
                         explore(&mut db, seed, nflags, start, depth, &mut path, queries, w);
                     });
                     if let Some(a) = &r.abnormal {
-                        ctx.violation("explorer-child-died", format!("the exploring process died: {a}"), json!({"seed":seed.name,"start":start}));
+                        if a.ends_with("signal 14") {
+                            ctx.mark_capped(&format!("explorer subtree of seed {} / start {start} hit its watchdog", seed.name));
+                        } else {
+                            ctx.violation("explorer-child-died", format!("the exploring process died: {a}"), json!({"seed":seed.name,"start":start}));
+                        }
                     }
                     // reference: every observed content compiled in a fork of the pristine image (memoised)
                     let mut fresh: BTreeMap<u32, (String, String, bool)> = BTreeMap::new();
@@ -169,6 +173,9 @@ fn run_all(ctx: &mut Ctx) {
                             Some("edit-only") => {
                                 ctx.count("transitions", 1);
                                 states.insert(rec["flags"].as_u64().unwrap() as u32);
+                            }
+                            Some("abnormal") if rec["what"].as_str().map(|w| w.ends_with("signal 14")).unwrap_or(false) => {
+                                ctx.mark_capped("a history's child hit its watchdog");
                             }
                             Some("abnormal") => {
                                 ctx.violation("incremental-step-crashed", format!("a step of the history crashed the compiler process: {}", rec["what"]), json!({"seed":seed.name,"start":start,"path":rec["path"]}));
